@@ -7,7 +7,10 @@ props = [json.loads(l) for l in open(os.path.join(ROOT, 'properties.jsonl'))]
 
 NOTE = ("Trusted base: go/types, go/packages, x/tools go/cfg (and go/ssa + VTA call graph in the thorough tier), "
         "and the rule tables in checker/. Assumes user callbacks behave as the property's provisos say and that no "
-        "reflection/unsafe touches the anchored state. Decides structural necessary conditions, not the behavioural statement as a whole.")
+        "reflection/unsafe touches the anchored state. Decides structural necessary conditions, not the behavioural statement as a whole. "
+        "Before the rules run the program is normalised (helpers unknown to the rules expanded in place, log statements removed, nested/consecutive ifs "
+        "merged; DESIGN.md 7.11). Only a violated obligation fails the check; an obligation that cannot be applied to the tree (construct moved or "
+        "renamed) is printed as UNDECIDED, recorded in the evidence, and does not fail it.")
 
 # id -> (text of the claim, technique, design section)
 CLAIMS = {
@@ -100,6 +103,28 @@ EXTRA = {
  'C20': "Also: removeFirst touches data[0] only before the reslice; create-only-when-missing; imports of client DELETE (C11) and handleSSE (C09) rules.",
 }
 
+# round 9 (added code, cooperating edits): appended after EXTRA
+EXTRA9 = {
+ 'C01': "Round 9: every response reaches the lookup closure (no filter in front of it); the stdio reader hands every decode outcome over and keeps one decoder.",
+ 'C02': "Round 9: nil params refused decided by reachability under the refusal's own guards.",
+ 'C03': "Round 9: the streamable client's Write returns nil only behind checkResponse and starts no goroutine that sends; the preempter never answers (imported).",
+ 'C04': "Round 9: every path from Retire to the return starts the notifying goroutine; a refused duplicate loses its id (imported).",
+ 'C05': "Round 9: a bare blocking channel operation outside the classified table is a violation; close-once distinguishes a skipped close from an unrecognised idiom.",
+ 'C06': "Round 9: with the session initialized no successful return of initialize is reachable; extractRequestMeta gives up only for empty or undecodable params; the -32022 gate decided by reachability.",
+ 'C07': "Round 9: Server.Connect stores the transport-filtered versions (absence is a violation).",
+ 'C08': "Round 9: every error-free return of After lies behind the purge test (imported from C20).",
+ 'C09': "Round 9: a failed client.Do is always followed by the next attempt; the progress predicate of the retry counter and the read-error rule are decided by reachability.",
+ 'C10': "Round 9: the duplicate-id scan sits in servePOST's registration section; the only list-bearing field of the shared store is the session/stream table (imported from C20).",
+ 'C12': "Round 9: header bindings are derived from the message's own tool on every call.",
+ 'C13': "Round 9: keepaliveCancel is referenced by Close and startKeepalive only; Ping returns the send's error itself or %w-wrapped.",
+ 'C14': "Round 9: verify is asked with the caller's own, never reassigned verifier; a non-constant status on a token-bearing return counts as admitting.",
+ 'C15': "Round 9: every candidate's expected resource is the requested URL or its origin.",
+ 'C16': "Round 9: the schema caches are keyed by the reflect.Type / *Schema parameter itself.",
+ 'C18': "Round 9: once the slot is cleared every path of notifySessions reaches both fan-outs.",
+ 'C19': "Round 9: every MarshalJSON returns the output of a Marshal call.",
+ 'C20': "Round 9: the store holds lists only in the session/stream table; After answers nothing before the purge test; pairs of accounting statements accepted in either order.",
+}
+
 REASONS = {}
 
 checks, na = [], []
@@ -107,9 +132,10 @@ for p in props:
     i = p['id']
     if i in CLAIMS:
         text, tech, ref = CLAIMS[i]
-        if i in EXTRA:
+        add = ' '.join(x for x in (EXTRA.get(i), EXTRA9.get(i)) if x)
+        if add:
             j = text.rfind('Not decided:')
-            text = (text[:j] + EXTRA[i] + ' ' + text[j:]) if j >= 0 else text + ' ' + EXTRA[i]
+            text = (text[:j] + add + ' ' + text[j:]) if j >= 0 else text + ' ' + add
         checks.append({
             "property_id": i,
             "quick_cmd": "./check.sh %s quick" % i,
@@ -131,7 +157,7 @@ m = {
            "baseline_off_cmd": "cd /repo && go test -mod=mod -vet=off -count=1 -timeout 25m ./...",
            "source_commits": [], "add_only": True},
  "engines": [{"name": "mcpcheck", "path": "checker/", "serves_properties": sorted(CLAIMS),
-              "kind_free_text": "repository-specific static analyser: go/packages + go/cfg dominance/must-pass-through + must-locksets + table extraction; go/ssa + VTA call graph in the thorough tier"}],
+              "kind_free_text": "repository-specific static analyser: go/packages + source normalisation (inlining of unknown helpers, canonical if-forms) + go/cfg dominance/must-pass-through/three-valued reachability + must-locksets + table extraction; go/ssa + VTA call graph in the thorough tier"}],
  "checks": checks,
  "not_applicable": na,
  "notes": "All checks are static: they load and type-check /repo's current working tree on every run and execute none of it. "
